@@ -144,7 +144,32 @@ pub fn gen_case(rng: &mut Rng, reader_heavy: bool, thorough: bool) -> SchedCase 
     }
     threads.push(ops);
   }
-  if rng.chance(if reader_heavy { 3 } else { 1 }, 4) {
+  if !reader_heavy && !in_memory && rng.chance(1, 8) {
+    // scenario: one handle empties the index, compaction runs, another handle
+    // refills it with a few commits, the first handle touches what was added
+    threads.clear();
+    let mut a = vec![TOp::NewWriter];
+    for id in ids.iter() {
+      a.push(TOp::Delete { id: id.clone() });
+    }
+    a.push(TOp::Commit);
+    if rng.chance(1, 2) {
+      a.push(TOp::Add { id: ids[0].clone(), ver });
+      ver += 1;
+    } else {
+      a.push(TOp::Delete { id: ids[0].clone() });
+    }
+    a.push(TOp::Commit);
+    threads.push(a);
+    let mut b = vec![TOp::NewWriter];
+    for i in 0..1 + rng.usize(3) {
+      b.push(TOp::Add { id: ids[i % ids.len()].clone(), ver });
+      ver += 1;
+      b.push(TOp::Commit);
+    }
+    threads.push(b);
+    threads.push(vec![TOp::Compact]);
+  } else if rng.chance(if reader_heavy { 3 } else { 1 }, 4) {
     let n = 1 + rng.usize(2);
     threads.push((0..n).map(|_| TOp::Compact).collect());
   }
